@@ -1,10 +1,10 @@
 # orchestrator configuration of the C10 check (loaded by tools/props.py)
-from stack import FULL_STACK, FULL_DEPS, QUIC_STACK, QUIC_DEPS
+from stack import FULL_STACK, FULL_DEPS, QUIC_STACK, QUIC_DEPS, WT_STACK, WT_DEPS
 
 SPEC = dict(
     pkg="./harness/c10",
-    instrument=FULL_STACK + QUIC_STACK + ["./p2p/net/conngater"],
-    deps=FULL_DEPS + QUIC_DEPS,
+    instrument=FULL_STACK + QUIC_STACK + WT_STACK + ["./p2p/net/conngater"],
+    deps=FULL_DEPS + QUIC_DEPS + WT_DEPS,
     level="exploration",
     level_text=("seeded search over histories of Block*/Unblock* calls on the real BasicConnectionGater (peer, address in 4- and "
                 "16-byte form, canonical IPv4/IPv6 subnets incl. the IPv4-mapped spelling), each optionally cut by a process stop "
@@ -13,15 +13,16 @@ SPEC = dict(
                 "simnet whose IP addresses sit on the first/last/just-outside addresses of the blocked subnets (IPv4, IPv6, "
                 "IPv4-mapped source spelling), G dialling through /ip4, /ip6, /ip6/::ffff:a.b.c.d, /dns4, /dns6, /dns forms "
                 "(fake resolver) and decoy addresses, or (stratum hooks-direct) with a sweep of every Intercept* hook over every "
-                "pool IP in every textual form after every call; stratum full-stack-quic: the same with every node on TCP AND real QUIC "
-                "(p2p/transport/quic + quicreuse + quic-go over simnet's UDP model), the dialler knowing QUIC only | both | TCP only "
+                "pool IP in every textual form after every call; stratum full-stack-quic: the same with every node on TCP, real QUIC AND real WebTransport "
+                "(p2p/transport/quic + quicreuse + p2p/transport/webtransport + quic-go/http3 + webtransport-go over simnet's UDP "
+                "model), the dialler knowing a drawn non-empty subset of {QUIC, WebTransport (with current certhashes), TCP} addresses "
                 "per dial, UDP loss <= 30 % / duplication / reordering in 2/5 of those runs (stopped before the final round). "
                 "Compared with the acknowledged rule set (what the return values "
                 "told the caller). Sampling, not proof."),
     level_note=("trusted: testing/synctest, simnet's TCP model, simdisk's durability model (a mutation that was applied is "
                 "durable; the stop falls right after it), go-datastore's MapDatastore/namespace/query code, go-multiaddr and "
                 "net.IPNet.Contains (used by the reference model for matching). Rules change only at quiescent instants between "
-                "dial rounds. NOT simulated: the WebTransport / WebRTC / websocket listeners' own InterceptAccept/InterceptSecured "
+                "dial rounds. NOT simulated: the WebRTC / websocket listeners' own InterceptAccept/InterceptSecured "
                 "call sites (their address forms reach the real gater in the hooks-direct stratum only), relayed connections, "
                 "hole punching; QUIC dial attempts are recognised on the wire by the harness's own parse of the QUIC long header "
                 "(RFC 8999/9000 connection-id rule); "
@@ -31,8 +32,9 @@ SPEC = dict(
                "lock-level scheduling; direct hook sweep over address forms"),
     design_ref="DESIGN.md section 6 (C10)",
     quick_s=50, thorough_s=600,
-    rule=("one run = one tape: stratum hooks-direct (1/7) | full-stack over TCP (3/7) | full-stack with QUIC (3/7: per dial "
-          "QUIC-only | both | TCP-only address knowledge 3:3:1, subset of the QUIC address forms, UDP faults in 2/5 of the runs: "
+    rule=("one run = one tape: stratum hooks-direct (1/7) | full-stack over TCP (3/7) | full-stack with QUIC+WebTransport (3/7: per dial "
+          "a non-empty subset of {QUIC, WebTransport, TCP} address kinds (uniform over the 7 subsets), subsets of the QUIC and "
+          "WebTransport address forms, UDP faults in 2/5 of the runs: "
           "loss 0|3|12|30 %, duplication 0|5 %, latencies none|<=15 ms|<=400 ms, stopped before the final round); full-stack: link whole|fragmented, security "
           "noise|tls, host IPs of P and Q and two decoy IPs from a 20-address pool on the subnet edges, 3-10 steps of dial round "
           "(subset of G->P, P->G, G->Q, Q->G run concurrently, each triggered by Swarm.DialPeer | Swarm.NewStream; per outbound dial a subset of the address forms, optional decoy) | "
@@ -41,8 +43,14 @@ SPEC = dict(
           "the three load queries first. non-trivial = at least one Block was acknowledged and at least one oracle evaluation "
           "with a definite expectation followed; distinct = distinct (stratum, security, hosts, sequence of calls with outcomes, "
           "rounds with dial results and connection counts) x schedule hash"),
-    probes=["stratum-full-stack", "stratum-hooks-direct", "stratum-full-stack-quic", "G-knows-quic-only", "G-knows-tcp+quic",
-            "G-knows-tcp-only", "remote-knows-quic-only", "remote-knows-tcp+quic", "remote-knows-tcp-only",
+    probes=["stratum-full-stack", "stratum-hooks-direct", "stratum-full-stack-quic",
+            "G-knows-quic", "G-knows-webtransport", "G-knows-tcp", "G-knows-quic+webtransport", "G-knows-quic+tcp",
+            "G-knows-webtransport+tcp", "G-knows-quic+webtransport+tcp",
+            "remote-knows-quic", "remote-knows-webtransport", "remote-knows-tcp", "remote-knows-quic+webtransport",
+            "remote-knows-quic+tcp", "remote-knows-webtransport+tcp", "remote-knows-quic+webtransport+tcp",
+            "webtransport-conn-admitted-inbound", "webtransport-conn-admitted-outbound", "webtransport-Secured-inbound",
+            "webtransport-Secured-outbound", "refused-Accept-webtransport", "refused-Secured-inbound-webtransport",
+            "refused-AddrDial-webtransport", "dial-form-webtransport-dns", "dial-form-webtransport-ip6-mapped",
             "quic-conn-admitted-inbound", "quic-conn-admitted-outbound", "quic-Secured-inbound", "quic-Secured-outbound",
             "refused-Accept-quic", "refused-Secured-inbound-quic", "refused-AddrDial-quic", "quic-dial-attempt-seen",
             "udp-faults-on", "udp-faults-stopped-before-final-round", "not-connected-under-udp-faults", "security-noise", "security-tls",
@@ -64,7 +72,8 @@ SPEC = dict(
           "swarm (dialPeer, addrsForDial incl. DNS resolution step, filterKnownUndialables, dial worker, addConn, notifications)",
           "tcp transport dial path (WithDialerForAddr)", "upgrader + gated listener (InterceptAccept, InterceptSecured call sites)",
           "noise, tls", "multistream-select", "yamux", "pstoremem", "eventbus",
-          "p2p/transport/quic (listener.Accept gating, transport.dial gating), quicreuse, quic-go (stratum full-stack-quic)"],
+          "p2p/transport/quic (listener.Accept gating, transport.dial gating), quicreuse, quic-go (stratum full-stack-quic)",
+          "p2p/transport/webtransport (httpHandler InterceptAccept, InterceptSecured after the Noise handshake, dial path), cert manager, quic-go/http3, webtransport-go (stratum full-stack-quic)"],
     stubs=["wire: simnet TCP model", "wire: simnet UDP model (drawn loss / duplication / latency per datagram) + a recording filter that spots G's client Initial packets",
            "crypto/rand: simrand (seeded) in the QUIC stratum", "disk: simdisk wrapper around MapDatastore (process stop after a mutation, I/O error on an operation)",
            "DNS: fake MultiaddrDNSResolver mapping p.test/q.test to the hosts' IPs (dns6 of an IPv4 host yields the IPv4-mapped form)",
@@ -72,5 +81,7 @@ SPEC = dict(
            "null resource manager; no basic host / identify on the nodes"],
     assume=["virtual clock of testing/synctest", "5 virtual seconds after the dials returned exceed every dial-ranking delay on these paths",
             "a rule change happens only at a quiescent instant; an inbound connection's chain gating hooks -> addConn -> notification takes no virtual time, so a notification is judged by the rules in force when it arrives",
+            "15 virtual seconds after the dials of a round returned exceed the WebTransport listener's 10 s handshake timeout plus the largest drawn latency: no inbound handshake that passed InterceptAccept straddles the next rule change",
+            "without UDP faults a close sent by G reaches the remote at once (5 virtual seconds are far below the 30 s idle timeout that would hide a missing close)",
             "45 virtual seconds with everything closed on both sides exceed QUIC's idle timeout (30 s) — no half-dead connection survives into the final round"],
 )
